@@ -44,7 +44,9 @@ def setup(common=None):
                 d = d * b ** sympy.Rational(e[0], e[1])
             return d
 
-        for rid in (1, 2, 3):
+        _U["mr_atoms"] = {a["n"]: a for a in mr["atoms"]}
+        _U["dimexpr"] = dimexpr
+        for rid in (1, 2, 3, 4):  # 4 = the registry the histories of law "state" edit
             reg = UnitRegistry()
             for a in mr["atoms"]:
                 if a["n"] == "xb" and rid != 2:
@@ -72,7 +74,7 @@ def setup(common=None):
     # state classes of the registries: equal tables -> equal class (named by the smallest registry id of the class)
     rs = {}
     for k in sorted(regs):
-        rs[k] = next((j for j in sorted(rs) if regs[j].lut == regs[k].lut), k)
+        rs[k] = k if k == 4 else next((j for j in sorted(rs) if j != 4 and regs[j].lut == regs[k].lut), k)
     _U["rs"] = rs
     _U["regid"] = {id(r): k for k, r in regs.items()}
 
@@ -248,12 +250,59 @@ def _alarm(signum, frame):
 _LEAFCACHE = {}
 
 
+def _apply_edit(reg, e):
+    """one registry edit of a history, through the public API."""
+    at = _U["mr_atoms"]
+    scale = 2.0 ** int(e["lg"])
+    if e["k"] == "modify":
+        reg.modify(e["sym"], scale)
+    elif e["k"] == "add":
+        reg.add(e["sym"], scale, _U["dimexpr"](at[e["d"]]["dim"]))
+    elif e["k"] == "readd":
+        reg.remove(e["sym"])
+        reg.add(e["sym"], scale, _U["dimexpr"](at[e["d"]]["dim"]))
+    else:
+        raise ValueError("unknown edit " + str(e))
+
+
+def _reset_registry4():
+    """registry 4 back to the model table - through the public API as well (it stays the same, warm, object)."""
+    reg = _U["regs"][4]
+    for n, a in _U["mr_atoms"].items():
+        if n == "xb":
+            continue
+        want = (-1.0 if a["neg"] else 1.0) * 2.0 ** int(Fraction(a["lg"][0], a["lg"][1]))
+        dim = _U["dimexpr"](a["dim"])
+        row = reg.lut.get(n)
+        if row is None or row[0] != want or row[1] != dim:
+            reg.add(n, want, dim, offset=float(Fraction(a["off"][0], a["off"][1])), prefixable=False)
+
+
 def observe(case):
+    """one case -> one observation; a registry history (law "state") -> {"phases": [one observation per phase]}."""
+    if case["law"] != "state":
+        return _run(case, 0, None)
+    _reset_registry4()
+    hashes = {}
+    phases = []
+    for ph in range(len(case["edits"]) + 1):
+        if ph > 0:
+            _apply_edit(_U["regs"][4], case["edits"][ph - 1])
+        o = _run(case, 4, hashes)
+        o.update(hist=True, ph=ph, edits=case["edits"])
+        phases.append(o)
+    _reset_registry4()
+    return {"phases": phases}
+
+
+def _run(case, hreg, hashes):
     U = _U
     mp = U["mp"]
     exact = U["mode"] == "MR"
     Unit = U["Unit"]
     lv = [U["leaves"][i - 1] for i in case["lv"]]
+    if hreg:
+        lv = [(hreg, s) for _, s in lv]
     objs = [Unit(s, registry=U["regs"][r]) for r, s in lv]
     objs.append(Unit(registry=objs[0].registry))
     atoms = _atoms_of(objs)
@@ -280,6 +329,9 @@ def observe(case):
     regs = []
     for o, name in zip(objs, lv + [(lv[0][0], "<one>")]):
         key = (name, tuple(atoms), lv[0][0])
+        if hreg:  # the registry changes under the histories: nothing is remembered
+            regs.append(_proj(o, atoms, lut, exact))
+            continue
         if key not in _LEAFCACHE:
             _LEAFCACHE[key] = _proj(o, atoms, lut, exact)
         regs.append(_LEAFCACHE[key])
@@ -314,6 +366,12 @@ def observe(case):
             elif op == "coeff":
                 cf, res = a.as_coeff_unit()
                 ref = mp.mpf(sa) / mp.mpf(float(cf))
+            elif op in ("sqrtrule", "recrule", "sqrrule"):
+                fn = {"sqrtrule": U["array"]._sqrt_unit, "recrule": U["array"]._reciprocal_unit, "sqrrule": U["array"]._square_unit}[op]
+                cf, res = fn(a)
+                if cf != 1:
+                    raise TypeError("unary rule with a factor")
+                ref = {"sqrtrule": mp.sqrt(mp.mpf(sa)), "recrule": 1 / mp.mpf(sa), "sqrrule": mp.mpf(sa) ** 2}[op]
             elif op in ("mulrule", "divrule"):
                 fn = U["array"]._multiply_units if op == "mulrule" else U["array"]._divide_units
                 cf, res = fn(a, b)
@@ -366,9 +424,19 @@ def observe(case):
                 "serr": _err(a.base_value, b.base_value),
             }
         )
+    hc = []
+    for o in objs:
+        if o is None or hashes is None:
+            hc.append(0)
+        else:
+            hc.append(hashes.setdefault(hash(o), len(hashes) + 1))
     inrange = all(sc is None or (math.isfinite(sc) and 1e-290 < abs(sc) < 1e290) for sc in scales)
     return {
         "inrange": bool(inrange),
+        "hist": False,
+        "ph": 0,
+        "edits": [],
+        "hc": hc,
         "law": case["law"],
         "lv": case["lv"],
         "p": case["p"],
